@@ -169,7 +169,7 @@ theorem step_metadata_stops (s : St) (p : Parked) (kn : Nat → Bool) (d : IDl) 
         (.metadata k i len good)).1.1.info =
         (if s.cfg.n > s.cfg.maxPieces ∨ s.cfg.isPrivate = true then s.info else true) := by
     rw [heq]
-    refine ⟨?_, by simpa [hmdStored] using hdv, ?_, by simp [hmdStored], ?_⟩
+    refine ⟨?_, hmdAdopt_doVerify_false _ (by simpa [hmdStored] using hdv), ?_, by simp [hmdStored], ?_⟩
     · rcases hcase with hc1 | ⟨hn, hp, hs⟩
       · rw [(hmdAdopt_refused_fields _ hc1 hr').2.2.2.2.2.2.2.2.2.2]; exact hpan
       · rw [(hmdAdopt_stopAfter_fields _ hn hp hs hr').2.2.2.2.2.2.2.2.2.2.2]; exact hpan
